@@ -444,6 +444,63 @@ def run (s : Mpp) : List Op → Mpp × List Out
     let (s2, o2) := run s1 ops
     (s2, o1 ++ o2)
 
+/-- everything the receive path reads of one final-hop HTLC (`ks`: code of the onion's keysend preimage, `pd`: the onion
+    carries payment_data, `hash`: code of the payment hash, `verifyOk`: what `inbound_payment::verify` answers for it,
+    `minCltv`: the delta `verify` returns, `height`: the receiver's best block height) -/
+structure RecvIn where
+  id : Nat
+  value : Nat
+  intended : Nat
+  skim : Option Nat
+  total : Nat
+  cltv : Nat
+  tag : Nat
+  ev : Bool
+  onionCltv : Nat
+  height : Nat
+  allow : Bool
+  ks : Option Nat
+  pd : Bool
+  hash : Nat
+  verifyOk : Bool
+  minCltv : Option Nat
+
+def RecvIn.op (i : RecvIn) : Op := .part i.id i.value i.intended i.skim i.total i.cltv i.tag i.ev
+
+/-- one deciding statement of the receive path: `some reason` = the HTLC is failed back here.  Every test is the TRANSLATED one
+    (Generated/Timing, Generated/InboundMpp); `verify` and the min_final_cltv test run only when
+    `has_recipient_created_payment_secret` (= `keysend_preimage.is_none()` for a plain Receive, pinned by gen_inbound.py) -/
+def stageRefuses (sha256 : Nat → Nat) (i : RecvIn) : MppGen.RecvStage → Option FailReason
+  | .finalCltv => if finalIncorrectCltv i.onionCltv i.cltv then some .finalIncorrectCLTVExpiry else none
+  | .expirySoon => if finalExpiryTooSoon i.height i.cltv then some .paymentClaimBuffer else none
+  | .amount => if MppGen.recvAmountTooLow i.allow i.intended i.value i.skim then some .finalIncorrectHTLCAmount else none
+  | .routing => match MppGen.recvRouting sha256 i.ks i.pd i.hash with | .refused r => some r | _ => none
+  | .verifySecret => if i.ks.isNone && !i.verifyOk then some MppGen.reasonPartRefused else none
+  | .minCltv =>
+    match i.ks, i.minCltv with
+    | none, some m => if MppGen.recvCltvBelowMin i.height m i.cltv then some MppGen.reasonPartRefused else none
+    | _, _ => none
+  | .accumulator => none
+
+/-- the receive path as a sequence of stages IN THE ORDER GIVEN (the generated `MppGen.recvStages` = the order of the Rust
+    text): a refusing test stops with the state AS IT IS THEN and fails the HTLC; the accumulator stage is `step s (.part ..)`.
+    Result: state, everything output, the reason of the front-end refusal (if any). -/
+def runStages (sha256 : Nat → Nat) : List MppGen.RecvStage → RecvIn → Mpp → List Out → Mpp × List Out × Option FailReason
+  | [], _, s, acc => (s, acc, none)
+  | .accumulator :: rest, i, s, acc => runStages sha256 rest i (step s i.op).1 (acc ++ (step s i.op).2)
+  | st :: rest, i, s, acc =>
+    match stageRefuses sha256 i st with
+    | some r => (s, acc ++ [.failPart i.id], some r)
+    | none => runStages sha256 rest i s acc
+
+/-- the receive path of the code that exists -/
+def receive (sha256 : Nat → Nat) (i : RecvIn) (s : Mpp) : Mpp × List Out × Option FailReason :=
+  runStages sha256 MppGen.recvStages i s []
+
+/-- the ChannelManager is written and read back: `claimable_payments` / `pending_claiming_payments` are persisted, of a part
+    everything except `MppPart::timer_ticks`, which `impl Readable for (ClaimableHTLC, u64)` sets to 0 -/
+def restartState (s : Mpp) : Mpp := { s with parts := s.parts.map fun p => { p with ticks := 0 } }
+
 /-- states reachable from the empty accumulator -/
 inductive Reachable : Mpp → Prop where
   | init : Reachable Mpp.init
